@@ -142,6 +142,7 @@ pub fn gen_straddle_plan(r: &mut Rng, ints_only: bool) -> Plan {
                 probe_cells: false,
                 pull_params: None,
                 pull_skip: 0,
+                mixed_rows: 0,
             }),
         },
         Cmd {
@@ -273,6 +274,7 @@ fn gen_c04(r: &mut Rng, tier: Tier, job: u64) -> Plan {
                     probe_cells: false,
                     pull_params: None,
                     pull_skip: 0,
+                    mixed_rows: 0,
                 }),
             });
         }
@@ -350,6 +352,7 @@ fn gen_c04(r: &mut Rng, tier: Tier, job: u64) -> Plan {
                     probe_cells: false,
                     pull_params: None,
                     pull_skip: 0,
+                    mixed_rows: 0,
                 }),
             });
         }
@@ -373,6 +376,7 @@ fn gen_c04(r: &mut Rng, tier: Tier, job: u64) -> Plan {
                     probe_cells: false,
                     pull_params: None,
                     pull_skip: 0,
+                    mixed_rows: 0,
                 }),
             });
         }
@@ -433,6 +437,7 @@ fn gen_c04(r: &mut Rng, tier: Tier, job: u64) -> Plan {
                         probe_cells: false,
                         pull_params: None,
                         pull_skip: 0,
+                        mixed_rows: 0,
                     }),
                 });
             }
@@ -529,6 +534,7 @@ fn gen_c04_tls(r: &mut Rng) -> Plan {
             probe_cells: false,
             pull_params: None,
             pull_skip: 0,
+            mixed_rows: 0,
         };
         if binary {
             let id = 1 + cmds.len() as u32;
@@ -857,6 +863,7 @@ fn c15_plan(cells: Vec<(Cell, u8, bool)>, r: &mut Rng) -> Plan {
                 probe_cells: true,
                 pull_params: None,
                 pull_skip: 0,
+                mixed_rows: 0,
             }),
         },
     ];
@@ -942,12 +949,78 @@ pub fn gen_c15_text_carry_on(r: &mut Rng) -> Plan {
                 probe_cells: false,
                 pull_params: None,
                 pull_skip: 0,
+                mixed_rows: 0,
             }),
         },
         Cmd {
             seq: 0,
             kind: CmdKind::Ping,
             act: Act::None,
+        },
+    ];
+    let mut p = Plan::basic(cmds);
+    p.reads = gen_reads(r);
+    p
+}
+
+/// Binary protocol: rows of integers written in two steps (leading values with write_col, the
+/// rest of the record with write_row): every call succeeds, so the client must decode exactly
+/// the integers written.
+pub fn gen_c15_mixed_rows(r: &mut Rng) -> Plan {
+    let ncols = 2 + r.usize_below(4);
+    let nrows = 1 + r.usize_below(3);
+    let cols: Vec<ColSpec> = (0..ncols)
+        .map(|_| ColSpec {
+            table: Blob::lit(b"t"),
+            name: Blob::lit(b"c"),
+            coltype: 0x08,
+            flags: 0,
+        })
+        .collect();
+    let rows: Vec<Vec<Cell>> = (0..nrows)
+        .map(|_| (0..ncols).map(|_| Cell::I64(int_edge(r, i64::MIN as i128, i64::MAX as i128) as i64)).collect())
+        .collect();
+    let unit = RowsUnit {
+        cols: cols.clone(),
+        rows,
+        write_row: true,
+        last_row_ended: true,
+        close: Close::Finish,
+        contra: None,
+        recover: None,
+    };
+    let cmds = vec![
+        Cmd {
+            seq: 0,
+            kind: CmdKind::Prepare(Blob::lit(b"p")),
+            act: Act::Prepare(PrepAct::Reply {
+                id: 1,
+                params: vec![],
+                cols,
+            }),
+        },
+        Cmd {
+            seq: 0,
+            kind: CmdKind::Execute {
+                stmt: 1,
+                flags: 0,
+                iters: 1,
+                block: ParamBlock {
+                    bind: None,
+                    values: vec![],
+                    raw: None,
+                    stale_types: None,
+                },
+            },
+            act: Act::Program(Program {
+                units: vec![Unit::Rows(unit)],
+                end: End::Implicit,
+                ret_err: None,
+                probe_cells: false,
+                pull_params: None,
+                pull_skip: 0,
+                mixed_rows: 1 + r.below(ncols as u64 - 1) as u8,
+            }),
         },
     ];
     let mut p = Plan::basic(cmds);
@@ -1076,6 +1149,12 @@ impl Check for C15 {
             }
             return;
         }
+        if job % 25 == 7 {
+            let plan = gen_c15_mixed_rows(rng);
+            ctx.stats.bump("probe.rows_written_in_two_steps", 1);
+            ctx.eval(&plan);
+            return;
+        }
         if job % 25 == 19 {
             let plan = gen_c15_text_carry_on(rng);
             ctx.stats.bump("probe.text_rows_after_a_refused_row", 1);
@@ -1093,7 +1172,7 @@ impl Check for C15 {
         ctx.eval(&plan);
     }
     fn owns(&self, rule: &str) -> bool {
-        ["int-refused", "int-altered", "int-unaccounted", "resp-malformed", "text-value", "resp-shape"].contains(&rule)
+        ["int-refused", "int-altered", "int-unaccounted", "resp-malformed", "text-value", "bin-value", "resp-shape"].contains(&rule)
     }
     fn extra_judge(&self, plan: &Plan, out: &Outcome, vs: &mut Vec<Violation>) {
         // locate the probe program
